@@ -4,7 +4,7 @@
 //   - the ordered statement skeleton (every statement, nested, logging left out) of dataParse,
 //     dataFetch, genQueryResult, genSysRandom, genUserRandom, choseSubmitter, padOrTrim and of the
 //     stages the signed content then travels through: genSign, dispatchSign, recoverSign,
-//     reportQueryResult;
+//     drainSigns (deferred by recoverSign since /repo 3a1c0bc), reportQueryResult;
 //   - for dataParse / dataFetch: the calls in source order with their arguments (ajson.JSONPath,
 //     xmlquery.Parse, xmlquery.Find, OutputXML, json.Marshal, io.LimitReader …), whether the
 //     first statement is the deferred recover wrapper, the document bound as a number;
@@ -308,7 +308,7 @@ func run(repo string) (string, error) {
 	}
 	s += "/-- imports of dosnode/dos_stages.go -/\n" + leanList("stagesImports", imps)
 
-	fns := []string{"dataParse", "dataFetch", "genQueryResult", "genSysRandom", "genUserRandom", "choseSubmitter", "padOrTrim", "genSign", "dispatchSign", "recoverSign", "reportQueryResult"}
+	fns := []string{"dataParse", "dataFetch", "genQueryResult", "genSysRandom", "genUserRandom", "choseSubmitter", "padOrTrim", "genSign", "dispatchSign", "recoverSign", "drainSigns", "reportQueryResult"}
 	decl := map[string]*ast.FuncDecl{}
 	for _, n := range fns {
 		fd := ex.FuncDecl(st, "", n)
